@@ -118,6 +118,7 @@ func c16run(c *evid.Ctx, r *gen.Rand, run int) {
 		args benc.Dict
 	}
 	var announces []annSeen
+	scrapeWrong := 0
 	var n *srv.Node
 	shortFor := func(dest string) bool {
 		nd := byAddr[dest]
@@ -167,6 +168,16 @@ func c16run(c *evid.Ctx, r *gen.Rand, run int) {
 		kind := "long"
 		switch q {
 		case "get_peers":
+			if sc, _ := benc.Int(a, "scrape"); (sc == 1) != scrape {
+				mu.Lock()
+				scrapeWrong++
+				mu.Unlock()
+			}
+			if h, _ := benc.Str(a, "info_hash"); h != string(ih[:]) {
+				mu.Lock()
+				scrapeWrong += 1000
+				mu.Unlock()
+			}
 			if shortFor(d.To.String()) {
 				kind = "short"
 			} else {
@@ -360,6 +371,12 @@ func c16run(c *evid.Ctx, r *gen.Rand, run int) {
 	mu.Lock()
 	anns := append([]annSeen(nil), announces...)
 	mu.Unlock()
+	mu.Lock()
+	sw := scrapeWrong
+	mu.Unlock()
+	if sw > 0 {
+		c.Violation("get_peers-query-with-wrong-scrape-flag-or-infohash", fmt.Sprintf("%s: %d get_peers queries (x1000 = wrong info_hash) did not match the announce options", desc, sw), nil)
+	}
 	if len(anns) > annAtFinish {
 		c.Violation("finished-signalled-before-the-announces-were-sent", fmt.Sprintf("%s: %d announce_peer queries had reached the socket when Finished() fired, %d more followed", desc, annAtFinish, len(anns)-annAtFinish), nil)
 	}
